@@ -3,7 +3,7 @@
    Shape: for ALL tables with `consistent tb = true` and every argument in range, the model of the Go query
    (C09Model.v) returns Ok of the value the naive per-sample expansion (C09Spec.v) defines. *)
 From V.lib Require Import Base.
-From V.c09 Require Import C09Model C09Spec C09BaseProofs C09SttsProofs.
+From V.c09 Require Import C09Model C09Spec C09BaseProofs C09SttsProofs C09CttsProofs C09StscProofs C09TrakProofs C09TimeProofs.
 
 (* a concrete non-trivial consistent table set: 7 samples, 3 stts runs, ctts, 2 stsc entries over 3 chunks,
    explicit sizes, stco, stss, sdtp *)
@@ -40,3 +40,89 @@ Print Assumptions C09_size.
 Theorem C09_nr_samples : forall tb, consistent tb = true -> trak_nr_samples tb = nsamples tb.
 Proof. exact nr_samples_correct. Qed.
 Print Assumptions C09_nr_samples.
+
+(* StszBox.GetTotalSampleSize (also for the empty interval b = a-1) *)
+Theorem C09_total_size : forall tb, consistent tb = true -> forall a b, 1 <= a -> b <= nsamples tb ->
+  stsz_get_total_sample_size (t_stsz tb) a b = Ok (S_total_size tb a b).
+Proof. exact total_size_correct. Qed.
+Print Assumptions C09_total_size.
+
+(* CttsBox.GetCompositionTimeOffset: cumulative EndSampleNr + binary search = expansion of the run lengths *)
+Theorem C09_cto : forall tb c, consistent tb = true -> t_ctts tb = Some c -> forall n, 1 <= n <= nsamples tb ->
+  exists x, S_cto c n = Some x /\ ctts_get_cto c n = Ok x.
+Proof. exact cto_correct. Qed.
+Print Assumptions C09_cto.
+
+(* StssBox.IsSyncSample: binary search = membership, for every sample number *)
+Theorem C09_is_sync : forall tb l, consistent tb = true -> t_stss tb = Some l -> forall n,
+  stss_is_sync l n = Ok (S_is_sync l n).
+Proof. exact is_sync_correct_tb. Qed.
+Print Assumptions C09_is_sync.
+
+(* SttsBox.GetSampleNrAtTime: the first sample starting at or after t (N+1 strictly inside the last sample),
+   an error beyond the end except for the documented final zero-duration sample.  Needs deltas_positive. *)
+Theorem C09_sample_at_time : forall tb, consistent tb = true ->
+  deltas_positive (t_stts_count tb) (t_stts_delta tb) = true -> 1 <= nsamples tb ->
+  forall t, stts_get_sample_nr_at_time (t_stts_count tb) (t_stts_delta tb) t =
+            match S_sample_at_time tb t with Some nr => Ok nr | None => Err end.
+Proof. exact sample_at_time_correct. Qed.
+Print Assumptions C09_sample_at_time.
+
+(* without deltas_positive the faithful model contradicts the expansion (known finding C09-F3) *)
+Definition zd_tb : tables :=
+  mkTables [3; 1; 3] [0; 0; 2] None (mkStsc [mkEntry 1 7 1] 1 []) (mkStsz 4 7 []) (Some [100]) None None None.
+Theorem C09_sample_at_time_zero_delta_refuted :
+  consistent zd_tb = true /\ S_sample_at_time zd_tb 0 = Some 1 /\
+  stts_get_sample_nr_at_time (t_stts_count zd_tb) (t_stts_delta zd_tb) 0 = Ok 5.
+Proof. vm_compute. repeat split. Qed.
+Print Assumptions C09_sample_at_time_zero_delta_refuted.
+
+(* StscBox.ChunkNrFromSampleNr: chunk of a sample and the first sample of that chunk *)
+Theorem C09_chunk_of_sample : forall tb, consistent tb = true -> forall n, 1 <= n <= nsamples tb ->
+  exists c, S_chunk_of tb n = Some c /\ 1 <= c <= nchunks tb /\
+            S_first_in_chunk tb c <= n /\
+            (exists cnt, S_chunk_count tb c = Some cnt /\ n < S_first_in_chunk tb c + cnt) /\
+            stsc_chunk_nr_from_sample_nr (sc_entries (t_stsc tb)) n = Ok (c, S_first_in_chunk tb c).
+Proof. exact chunk_of_sample_correct. Qed.
+Print Assumptions C09_chunk_of_sample.
+
+(* StscBox.GetChunk: start sample and number of samples of a chunk *)
+Theorem C09_chunk_contents : forall tb, consistent tb = true -> forall c, 1 <= c <= nchunks tb ->
+  exists cnt, S_chunk_count tb c = Some cnt /\ 1 <= cnt /\ S_first_in_chunk tb c + cnt <= nsamples tb + 1 /\
+              stsc_get_chunk (sc_entries (t_stsc tb)) c = Ok (mkChunk c (S_first_in_chunk tb c) cnt).
+Proof. exact get_chunk_correct. Qed.
+Print Assumptions C09_chunk_contents.
+
+(* StcoBox/Co64Box.GetOffset *)
+Theorem C09_chunk_offset : forall tb, consistent tb = true -> forall c, 1 <= c <= nchunks tb ->
+  exists o, S_chunk_offset tb c = Some o /\ trak_chunk_offset tb c = Ok o.
+Proof. exact get_offset_correct. Qed.
+Print Assumptions C09_chunk_offset.
+
+(* StscBox.GetContainingChunks: exactly the chunks chunk_of a .. chunk_of b, in order, each with its start
+   sample and count *)
+Theorem C09_containing_chunks : forall tb, consistent tb = true -> forall a b, 1 <= a -> a <= b -> b <= nsamples tb ->
+  exists ca cb l, S_chunk_of tb a = Some ca /\ S_chunk_of tb b = Some cb /\ 1 <= ca /\ ca <= cb /\ cb <= nchunks tb /\
+    stsc_get_containing_chunks (sc_entries (t_stsc tb)) a b = Ok l /\
+    map Some l = map (S_chunk tb) (seqN ca (N.to_nat (cb + 1 - ca))).
+Proof. exact containing_chunks_correct. Qed.
+Print Assumptions C09_containing_chunks.
+
+(* TrakBox.GetRangesForSampleInterval: one range per chunk met, starting at the file offset of the first wanted
+   sample of the chunk and covering exactly the wanted samples of that chunk *)
+Theorem C09_byte_ranges : forall tb, consistent tb = true -> forall a b, 1 <= a -> a <= b -> b <= nsamples tb ->
+  exists rl, trak_get_ranges tb a b = Ok rl /\ S_ranges tb a b = Some (map Some rl).
+Proof. exact ranges_correct. Qed.
+Print Assumptions C09_byte_ranges.
+
+(* TrakBox.GetSampleData (repaired text, f05688e): per-interval metadata = map meta [a..b] *)
+Theorem C09_sample_data : forall tb, consistent tb = true -> forall a b, 1 <= a -> a <= b + 1 -> b <= nsamples tb ->
+  exists l, trak_get_sample_data tb a b = Ok l /\ map Some l = S_sample_data tb a b.
+Proof. exact sample_data_correct. Qed.
+Print Assumptions C09_sample_data.
+
+(* the pinned text panics for every interval that does not start at sample 1 *)
+Theorem C09_sample_data_refuted : forall tb a b, 2 <= a -> a <= b -> b <= trak_nr_samples tb ->
+  trak_get_sample_data_pinned tb a b = Panic.
+Proof. exact sample_data_pinned_panics. Qed.
+Print Assumptions C09_sample_data_refuted.
